@@ -232,6 +232,12 @@ func (f *STFS) Initialize(rootProposal string, rootPerm os.FileMode) (root strin
 
 		reader, err := f.readOps.GetBackend().GetReader()
 		if err != nil {
+			// Only a drive that does not exist yet can be started from scratch; any other error (drive busy, too many
+			// open files, ...) says nothing about what is on it, and creating a new root would append to an existing tape
+			if !errors.Is(err, os.ErrNotExist) {
+				return "", err
+			}
+
 			return mkdirRoot()
 		}
 
